@@ -185,7 +185,7 @@ pub fn exercise_loaded(rec: &mut Rec, mbi: &BootInformation, opts: &MbiOpts) {
         let v = catch(|| match mbi.framebuffer_tag() {
             None => Val::None,
             Some(Ok(t)) => rec.ext(t),
-            Some(Err(e)) => Val::Err(format!("{e}")),
+            Some(Err(e)) => fb_err(&e),
         });
         rec.t.push("g.framebuffer", v.unwrap_or(Val::Panic));
     }
@@ -407,7 +407,7 @@ pub fn typed_tag_as(rec: &mut Rec, p: &str, tag: &Generic, kind: u32, opts: &Mbi
             u!(rec, p, "bpp", t.bpp());
             match catch(|| t.buffer_type()) {
                 None => rec.t.push(format!("{p}.bt"), Val::Panic),
-                Some(Err(e)) => rec.t.push(format!("{p}.bt"), Val::Err(format!("{e}"))),
+                Some(Err(e)) => rec.t.push(format!("{p}.bt"), fb_err(&e)),
                 Some(Ok(FramebufferType::Text)) => rec.t.push(format!("{p}.bt"), Val::Txt("text".into())),
                 Some(Ok(FramebufferType::RGB { red, green, blue })) => {
                     rec.t.push(format!("{p}.bt"), Val::Txt("rgb".into()));
@@ -539,10 +539,10 @@ pub fn typed_tag_as(rec: &mut Rec, p: &str, tag: &Generic, kind: u32, opts: &Mbi
             let t = cast!(rec, p, tag, NetworkTag);
             // The DHCP data has no accessor; its derived Debug lists the bytes.
             if let Some(s) = dbg(rec, format!("{p}.dbg"), t, true) {
-                let v = parse_debug_byte_list(&s, "dhcpack: [")
-                    .map(|b| Val::Txt(crate::bytes::hex(&b)))
-                    .unwrap_or(Val::Txt("unparsable".into()));
-                rec.t.push(format!("{p}.dhcp"), v);
+                // not recorded at all if the rendering is not the derived one
+                if let Some(b) = parse_debug_byte_list(&s, "dhcpack: [") {
+                    rec.t.push(format!("{p}.dhcp"), Val::Txt(crate::bytes::hex(&b)));
+                }
             }
         }
         17 => {
@@ -614,6 +614,32 @@ pub fn typed_tag_as(rec: &mut Rec, p: &str, tag: &Generic, kind: u32, opts: &Mbi
             dbg(rec, format!("{p}.dbg"), t, d);
         }
         _ => {}
+    }
+}
+
+/// The unknown-framebuffer-type error carries the offending byte, but only its
+/// Display/Debug renderings expose it: normalise to `unknown-framebuffer-type:<n>`
+/// using the last number in either rendering (independent of the wording).
+pub fn fb_err<E: core::fmt::Debug + core::fmt::Display>(e: &E) -> Val {
+    let last_num = |s: &str| -> Option<u64> {
+        let mut cur = String::new();
+        let mut last = None;
+        for ch in s.chars() {
+            if ch.is_ascii_digit() {
+                cur.push(ch);
+            } else if !cur.is_empty() {
+                last = cur.parse().ok();
+                cur.clear();
+            }
+        }
+        if !cur.is_empty() {
+            last = cur.parse().ok();
+        }
+        last
+    };
+    match last_num(&format!("{e:?}")).or_else(|| last_num(&format!("{e}"))) {
+        Some(n) => Val::Err(format!("unknown-framebuffer-type:{n}")),
+        None => Val::Err(format!("{e}")),
     }
 }
 
